@@ -1,4 +1,4 @@
-import Tengo.Proofs.C19EnumFilter
+import Tengo.Proofs.C19EnumChunk
 import Tengo.Proofs.C19EnumPrint
 import Tengo.Model.StdlibExpect
 /-!
@@ -21,7 +21,10 @@ runs when a function value is called).
 * `enum_not_enumerable_spec`, `enum_filter_not_array_spec`: the documented "returns undefined if `x` is not
   enumerable / not array" clause for all, any, each, find, find_key, map, at / filter.
 * `callsAs_key`, `callsAs_value`: the module's own `key` and `value` closures meet the callback contract.
-Not proved: `at` on enumerable input, `chunk`, the looping functions on maps, immutable arrays and strings,
+* `enum_*_imarr_spec`: the same seven results on immutable arrays (the loop runs over the snapshot).
+* `enum_at_array_spec`: `at` on arrays; `enum_chunk_array_spec`: `chunk` on non-empty arrays, int size ≥ 1
+  (value of the groups only: they are slice headers over the storage of `x`).
+Not proved: `at` on maps, `chunk` on empty / immutable arrays, the looping functions on maps and strings,
 callbacks that write to the heap or fail (see notes/C19.md).
 -/
 namespace Tengo.Props.C19Enum
@@ -191,6 +194,204 @@ theorem enum_find_key_spec {Fc : Nat} {σ : St} {menv : Env} {ctx : Ctx} {r st c
   · exact tail_nil (F + 7 + es.length + 11) _ gs σ'
   · rfl
 
+/-! ### the same functions on immutable arrays (the loop runs over the snapshot of the elements) -/
+
+/-- `each` on an immutable array returns undefined (after calling `fn` on every (index, element)). -/
+theorem enum_each_imarr_spec {Fc : Nat} {σ : St} {menv : Env} {ctx : Ctx} {r st cr : Nat} {es : List Value}
+    {f : Nat → Value → Value} (h : EnumCall Fc σ menv ctx r st es cr f) (c : Closure)
+    (hc : exportClosure "each" menv = some c) (F : Nat) (hF : Fc ≤ F) (gs : GSt) :
+    ∃ σ', Ext σ σ' ∧
+      callClosure (F + es.length + 23) ctx c [.imarr r, .fn cr] gs σ = .ok ((.undef, gs), σ') := by
+  have := exportClosure_eq hc (ps := ["x", "fn"]) (body := eachBody) rfl
+  subst this
+  obtain ⟨σ', he, hrun⟩ := enum_fn_run_im (Kb := 7) (tail := []) (ctx := ctx) gs h.bound h.arr h.depth
+    (each_body h.cb) F hF
+  refine ⟨σ', he, ?_⟩
+  have hfu : F + es.length + 23 = F + 7 + es.length + 16 := by omega
+  rw [hfu]
+  show callClosure _ ctx ⟨["x", "fn"], false, guardEnum :: forKV eachLoop :: [], menv⟩ _ gs σ = _
+  rw [hrun, firstRes_none]
+  exact tail_nil (F + 7 + es.length + 11) _ gs σ'
+
+/-- `all` on an immutable array: true iff `fn(index, element)` is truthy for every element. -/
+theorem enum_all_imarr_spec {Fc : Nat} {σ : St} {menv : Env} {ctx : Ctx} {r st cr : Nat} {es : List Value}
+    {f : Nat → Value → Value} (h : EnumCall Fc σ menv ctx r st es cr f) (hsc : ∀ i x, es[i]? = some x → Scalar (f i x) = true)
+    (c : Closure) (hc : exportClosure "all" menv = some c) (F : Nat) (hF : Fc ≤ F) (gs : GSt) :
+    ∃ σ', Ext σ σ' ∧
+      callClosure (F + es.length + 24) ctx c [.imarr r, .fn cr] gs σ =
+        .ok ((.bool (es.zipIdx.all (fun q => truthy (f q.2 q.1))), gs), σ') := by
+  have := exportClosure_eq hc (ps := ["x", "fn"]) (body := allBody) rfl
+  subst this
+  obtain ⟨σ', he, hrun⟩ := enum_fn_run_im (Kb := 8) (tail := [.ret (some (.bool true))]) (ctx := ctx) gs
+    h.bound h.arr h.depth (all_body h.cb hsc) F hF
+  refine ⟨σ', he, ?_⟩
+  have hfu : F + es.length + 24 = F + 8 + es.length + 16 := by omega
+  rw [hfu]
+  show callClosure _ ctx ⟨["x", "fn"], false, guardEnum :: forKV allLoop :: [.ret (some (.bool true))], menv⟩ _ gs σ = _
+  rw [hrun, firstRes_all]
+  cases hall : es.zipIdx.all (fun q => truthy (f q.2 q.1))
+  · rfl
+  · exact tail_ret_bool (F + 8 + es.length + 9) _ true gs σ'
+
+/-- `any` on an immutable array: true iff `fn(index, element)` is truthy for some element. -/
+theorem enum_any_imarr_spec {Fc : Nat} {σ : St} {menv : Env} {ctx : Ctx} {r st cr : Nat} {es : List Value}
+    {f : Nat → Value → Value} (h : EnumCall Fc σ menv ctx r st es cr f) (hsc : ∀ i x, es[i]? = some x → Scalar (f i x) = true)
+    (c : Closure) (hc : exportClosure "any" menv = some c) (F : Nat) (hF : Fc ≤ F) (gs : GSt) :
+    ∃ σ', Ext σ σ' ∧
+      callClosure (F + es.length + 23) ctx c [.imarr r, .fn cr] gs σ =
+        .ok ((.bool (es.zipIdx.any (fun q => truthy (f q.2 q.1))), gs), σ') := by
+  have := exportClosure_eq hc (ps := ["x", "fn"]) (body := anyBody) rfl
+  subst this
+  obtain ⟨σ', he, hrun⟩ := enum_fn_run_im (Kb := 7) (tail := [.ret (some (.bool false))]) (ctx := ctx) gs
+    h.bound h.arr h.depth
+    (ifret_body h.cb hsc (.bool true) (fun _ _ => .bool true) (fun F cx gs σI _ _ _ _ => ev_bool F cx true gs σI)) F hF
+  refine ⟨σ', he, ?_⟩
+  have hfu : F + es.length + 23 = F + 7 + es.length + 16 := by omega
+  rw [hfu]
+  refine Eq.trans hrun ?_
+  rw [firstRes_any]
+  cases hany : es.zipIdx.any (fun q => truthy (f q.2 q.1))
+  · exact tail_ret_bool (F + 7 + es.length + 9) _ false gs σ'
+  · rfl
+
+/-- `find` on an immutable array: the first element for which `fn(index, element)` is truthy, else undefined. -/
+theorem enum_find_imarr_spec {Fc : Nat} {σ : St} {menv : Env} {ctx : Ctx} {r st cr : Nat} {es : List Value}
+    {f : Nat → Value → Value} (h : EnumCall Fc σ menv ctx r st es cr f) (hsc : ∀ i x, es[i]? = some x → Scalar (f i x) = true)
+    (c : Closure) (hc : exportClosure "find" menv = some c) (F : Nat) (hF : Fc ≤ F) (gs : GSt) :
+    ∃ σ', Ext σ σ' ∧
+      callClosure (F + es.length + 23) ctx c [.imarr r, .fn cr] gs σ =
+        .ok ((((es.zipIdx.find? (fun q => truthy (f q.2 q.1))).map (fun q => q.1)).getD .undef, gs), σ') := by
+  have := exportClosure_eq hc (ps := ["x", "fn"]) (body := findBody) rfl
+  subst this
+  obtain ⟨σ', he, hrun⟩ := enum_fn_run_im (Kb := 7) (tail := []) (ctx := ctx) gs h.bound h.arr h.depth
+    (ifret_body h.cb hsc (.ident "v") (fun _ x => x) (fun F cx gs σI _ _ _ hv => ev_ident hv F gs)) F hF
+  refine ⟨σ', he, ?_⟩
+  have hfu : F + es.length + 23 = F + 7 + es.length + 16 := by omega
+  rw [hfu]
+  refine Eq.trans hrun ?_
+  rw [firstRes_find]
+  cases hfind : es.zipIdx.find? (fun q => truthy (f q.2 q.1))
+  · exact tail_nil (F + 7 + es.length + 11) _ gs σ'
+  · rfl
+
+/-- `find_key` on an immutable array: the index of the first element for which `fn(index, element)` is truthy. -/
+theorem enum_find_key_imarr_spec {Fc : Nat} {σ : St} {menv : Env} {ctx : Ctx} {r st cr : Nat} {es : List Value}
+    {f : Nat → Value → Value} (h : EnumCall Fc σ menv ctx r st es cr f) (hsc : ∀ i x, es[i]? = some x → Scalar (f i x) = true)
+    (c : Closure) (hc : exportClosure "find_key" menv = some c) (F : Nat) (hF : Fc ≤ F) (gs : GSt) :
+    ∃ σ', Ext σ σ' ∧
+      callClosure (F + es.length + 23) ctx c [.imarr r, .fn cr] gs σ =
+        .ok ((((es.zipIdx.find? (fun q => truthy (f q.2 q.1))).map (fun q => Value.int q.2)).getD .undef, gs), σ') := by
+  have := exportClosure_eq hc (ps := ["x", "fn"]) (body := findKeyBody) rfl
+  subst this
+  obtain ⟨σ', he, hrun⟩ := enum_fn_run_im (Kb := 7) (tail := []) (ctx := ctx) gs h.bound h.arr h.depth
+    (ifret_body h.cb hsc (.ident "k") (fun i _ => .int i) (fun F cx gs σI _ _ hk _ => ev_ident hk F gs)) F hF
+  refine ⟨σ', he, ?_⟩
+  have hfu : F + es.length + 23 = F + 7 + es.length + 16 := by omega
+  rw [hfu]
+  refine Eq.trans hrun ?_
+  rw [firstRes_find]
+  cases hfind : es.zipIdx.find? (fun q => truthy (f q.2 q.1))
+  · exact tail_nil (F + 7 + es.length + 11) _ gs σ'
+  · rfl
+
+/-- `map` on an immutable array: a fresh array (its own store) reading as `fn(index, element)` for every element in
+order. Needs the append bookkeeping of the heap to be well formed and `append` not to be shadowed in the
+module environment. -/
+theorem enum_map_imarr_spec {Fc : Nat} {σ : St} {menv : Env} {ctx : Ctx} {r st cr : Nat} {es : List Value}
+    {f : Nat → Value → Value} (h : EnumCall Fc σ menv ctx r st es cr f) (hwf : WfApp σ)
+    (happ : lookupVar menv "append" = none)
+    (c : Closure) (hc : exportClosure "map" menv = some c) (F : Nat) (hF : Fc ≤ F) (gs : GSt) :
+    ∃ σ' rd sd, Ext σ σ' ∧ σ.heap.size ≤ rd ∧ ArrAt σ' rd sd (es.zipIdx.map (fun q => f q.2 q.1)) ∧
+      callClosure (F + es.length + 17) ctx c [.imarr r, .fn cr] gs σ = .ok ((.arr rd, gs), σ') := by
+  have := exportClosure_eq hc (ps := ["x", "fn"]) (body := mapBody) rfl
+  subst this
+  obtain ⟨σ', rd, sd, hI, hdc, hda, hrun⟩ := map_run_im (ctx := ctx) gs h.bound h.arr h.cb h.depth hwf happ F hF
+  obtain ⟨rd', sd', hdc', _, hrd⟩ := hI.dst
+  have : rd' = rd := by
+    rw [hdc] at hdc'
+    injection hdc' with h1
+    injection h1 with h2 _
+    injection h2 with h3
+    exact h3.symm
+  subst this
+  exact ⟨σ', rd', sd, hI.ext, hrd, hda.arrAt, hrun⟩
+
+/-- `filter` on an immutable array: a fresh array of the elements for which `fn(index, element)` is truthy, in order.
+(`filter` is guarded by `is_array_like`, so the module environment must bind that helper.) -/
+theorem enum_filter_imarr_spec {Fc : Nat} {σ : St} {menv : Env} {ctx : Ctx} {r st cr : Nat} {es : List Value}
+    {f : Nat → Value → Value} (hb : IsArrLikeBound σ menv) (harr : ArrAt σ r st es) (hcb : CallsAs Fc σ cr f)
+    (hd : ctx.callDepth < 899) (hsc : ∀ i x, es[i]? = some x → Scalar (f i x) = true) (hwf : WfApp σ)
+    (happ : lookupVar menv "append" = none)
+    (c : Closure) (hc : exportClosure "filter" menv = some c) (F : Nat) (hF : Fc ≤ F) (gs : GSt) :
+    ∃ σ' rd sd, Ext σ σ' ∧ σ.heap.size ≤ rd ∧
+      ArrAt σ' rd sd ((es.zipIdx.filter (fun q => truthy (f q.2 q.1))).map (fun q => q.1)) ∧
+      callClosure (F + es.length + 17) ctx c [.imarr r, .fn cr] gs σ = .ok ((.arr rd, gs), σ') := by
+  have := exportClosure_eq hc (ps := ["x", "fn"]) (body := filterBody) rfl
+  subst this
+  obtain ⟨σ', rd, sd, hI, hdc, hda, hrun⟩ := filter_run_im (ctx := ctx) gs hb harr hcb hd hwf happ hsc F hF
+  obtain ⟨rd', sd', hdc', _, hrd⟩ := hI.dst
+  have : rd' = rd := by
+    rw [hdc] at hdc'
+    injection hdc' with h1
+    injection h1 with h2 _
+    injection h2 with h3
+    exact h3.symm
+  subst this
+  exact ⟨σ', rd', sd, hI.ext, hrd, hda.arrAt, hrun⟩
+
+/-! ### `at` on arrays -/
+
+/-- `at(x, key)` on an array: the element at `key` when `key` is an int within bounds, undefined when it is an
+int out of bounds or not an int. Needs both helpers bound and `is_int` not shadowed. -/
+theorem enum_at_array_spec {σ : St} {menv : Env} {ctx : Ctx} {r st : Nat} {es : List Value}
+    (hb : IsEnumBound σ menv) (hba : IsArrLikeBound σ menv) (harr : ArrAt σ r st es) (hd : ctx.callDepth < 899)
+    (hint : lookupVar menv "is_int" = none) (c : Closure) (hc : exportClosure "at" menv = some c)
+    (kv : Value) (F : Nat) (gs : GSt) :
+    ∃ σ', Ext σ σ' ∧ callClosure (F + 16) ctx c [.arr r, kv] gs σ =
+      .ok ((match kv with
+            | .int n => if n < 0 || n ≥ es.length then Value.undef else es.getD n.toNat .undef
+            | _ => Value.undef, gs), σ') := by
+  have := exportClosure_eq hc (ps := ["x", "key"]) (body := atBody) rfl
+  subst this
+  obtain ⟨σ', he, h⟩ := at_run (ctx := ctx) kv gs hb hba harr hd hint F
+  refine ⟨σ', he, ?_⟩
+  rw [h]
+  cases kv <;> rfl
+
+/-! ### `chunk` on arrays -/
+
+theorem slice_value (L : List Value) (off len k s : Nat) :
+    (L.drop (off + k)).take (min len (k + s) - k) = (((L.drop off).take len).drop k).take s := by
+  rw [List.drop_take, List.take_take, List.drop_drop]
+  congr 1
+  omega
+
+/-- `chunk(x, size)` on a non-empty array `x` (header `.arr st off len` over the store `vs`) with an int
+`size ≥ 1` (and `len + size` within int64): a fresh array of `⌈len / size⌉` arrays, the `t`-th of which is a
+slice header over the store of `x` reading as `es[t*size : t*size + size]` (the documented consecutive groups,
+the last one shorter). Only the VALUE of the groups is stated: they alias the storage of `x`. -/
+theorem enum_chunk_array_spec {σ : St} {menv : Env} {ctx : Ctx} {r st off len sN h0 : Nat} {vs : Array Value}
+    (hba : IsArrLikeBound σ menv) (hr : σ.heap[r]? = some (.arr st off len)) (hst : σ.heap[st]? = some (.store vs h0))
+    (hfit : off + len ≤ vs.size) (hclean : σ.appendedFrom.lookup r = none) (hrst : r ≠ st)
+    (hd : ctx.callDepth < 899) (hwf : WfApp σ)
+    (happ : lookupVar menv "append" = none) (hlen : lookupVar menv "len" = none)
+    (hs1 : 1 ≤ sN) (hl1 : 1 ≤ len) (hmax : (len : Int) + sN ≤ maxInt64)
+    (c : Closure) (hc : exportClosure "chunk" menv = some c) (F : Nat) (gs : GSt) :
+    ∃ σ' rd sd hs, callClosure (F + len + 19) ctx c [.arr r, .int sN] gs σ = .ok ((.arr rd, gs), σ') ∧
+      ArrAt σ' rd sd hs ∧ len ≤ hs.length * sN ∧ (hs.length - 1) * sN < len ∧
+      ∀ t v, hs[t]? = some v → ∃ ref o l h', v = .arr ref ∧ σ'.heap[ref]? = some (.arr st o l) ∧
+        σ'.heap[st]? = some (.store vs h') ∧
+        (vs.toList.drop o).take l = (((vs.toList.drop off).take len).drop (t * sN)).take sN := by
+  have := exportClosure_eq hc (ps := ["x", "size"]) (body := chunkBody) rfl
+  subst this
+  obtain ⟨σ', rd, sd, hs, j, hrun, hda, hj, h1, h2, hrefs, h', hst'⟩ :=
+    chunk_run (ctx := ctx) gs hba hr hst hfit hclean hrst hd hwf happ hlen hs1 hl1 hmax F
+  subst hj
+  refine ⟨σ', rd, sd, hs, hrun, hda.arrAt, h1, h2, ?_⟩
+  intro t v hv
+  obtain ⟨ref, e, _, _, _, hh⟩ := hrefs t v hv
+  exact ⟨ref, _, _, h', e, hh, hst', slice_value _ _ _ _ _⟩
+
 /-! ### "returns undefined if `x` is not enumerable" -/
 
 theorem not_enum_of_guard {F : Nat} {ctx : Ctx} {menv : Env} {q : String} {rest : List Stmt} {xv b : Value}
@@ -311,7 +512,7 @@ def exHeap : St :=
   { heap := #[.cell (.fn 1) false, .clos ⟨["x"], false, isEnumerableBody, []⟩,
               .store #[.int 1, .int 0] 1, .arr 2 0 2, .clos ⟨["_", "v"], false, valueBody, []⟩,
               .clos ⟨["k", "_"], false, keyBody, []⟩,
-              .cell (.fn 7) false, .clos ⟨["x"], false, isArrayLikeBody, []⟩] }
+              .cell (.fn 7) false, .clos ⟨["x"], false, isArrayLikeBody, []⟩, .arr 2 0 2] }
 def exEnv : Env := [{ vars := [("is_enumerable", 0), ("is_array_like", 6)] }]
 
 theorem exBoundArr : IsArrLikeBound exHeap exEnv :=
@@ -375,6 +576,37 @@ example : ∃ c σ' rd sd, exportClosure "filter" exEnv = some c ∧
   obtain ⟨σ', rd, sd, _, _, ha, h⟩ := enum_filter_spec exBoundArr exCall.arr exCall.cb (ctx := { env := [] })
     (by decide) exScalar (fun _ _ => rfl) rfl _ rfl 5 (Nat.le_refl _) {}
   exact ⟨_, σ', rd, sd, rfl, h, ha⟩
+
+/-- `enum.at([1, 0], 1)` is 0; `enum.all(immutable([1, 0]), enum.value)` is false. -/
+example : ∃ c σ', exportClosure "at" exEnv = some c ∧
+    callClosure 16 { env := [] } c [.arr 3, .int 1] {} exHeap = .ok ((.int 0, {}), σ') := by
+  obtain ⟨σ', _, h⟩ := enum_at_array_spec (ctx := { env := [] }) exBound exBoundArr exCall.arr (by decide) rfl _ rfl
+    (.int 1) 0 {}
+  exact ⟨_, σ', rfl, h⟩
+
+theorem exCallIm : EnumCall 5 exHeap exEnv { env := [] } 8 2 [.int 1, .int 0] 4 (fun _ x => x) :=
+  ⟨exBound, ⟨⟨0, 2, rfl, #[.int 1, .int 0], 1, rfl, rfl⟩, rfl⟩, callsAs_value rfl, by decide⟩
+
+example : ∃ c σ', exportClosure "all" exEnv = some c ∧
+    callClosure (5 + 2 + 24) { env := [] } c [.imarr 8, .fn 4] {} exHeap = .ok ((.bool false, {}), σ') := by
+  obtain ⟨σ', _, h⟩ := enum_all_imarr_spec exCallIm exScalar _ rfl 5 (Nat.le_refl _) {}
+  exact ⟨_, σ', rfl, h⟩
+
+/-- `enum.map(immutable([1, 0]), enum.value)` is a fresh array reading `[1, 0]`. -/
+example : ∃ c σ' rd sd, exportClosure "map" exEnv = some c ∧
+    callClosure (5 + 2 + 17) { env := [] } c [.imarr 8, .fn 4] {} exHeap = .ok ((.arr rd, {}), σ') ∧
+    ArrAt σ' rd sd [.int 1, .int 0] := by
+  obtain ⟨σ', rd, sd, _, _, ha, h⟩ := enum_map_imarr_spec exCallIm (fun _ _ => rfl) rfl _ rfl 5 (Nat.le_refl _) {}
+  exact ⟨_, σ', rd, sd, rfl, h, ha⟩
+
+/-- `enum.chunk([1, 0], 1)` is a fresh array of two groups. -/
+example : ∃ c σ' rd sd hs, exportClosure "chunk" exEnv = some c ∧
+    callClosure (0 + 2 + 19) { env := [] } c [.arr 3, .int (1 : Nat)] {} exHeap = .ok ((.arr rd, {}), σ') ∧
+    ArrAt σ' rd sd hs ∧ 2 ≤ hs.length * 1 ∧ (hs.length - 1) * 1 < 2 := by
+  obtain ⟨σ', rd, sd, hs, h, ha, h1, h2, _⟩ := enum_chunk_array_spec (ctx := { env := [] }) (σ := exHeap) (r := 3)
+    (st := 2) (off := 0) (len := 2) (sN := 1) (h0 := 1) (vs := #[.int 1, .int 0]) exBoundArr rfl rfl (by decide) rfl
+    (by decide) (by decide) (fun _ _ => rfl) rfl rfl (by decide) (by decide) (by decide) _ rfl 0 {}
+  exact ⟨_, σ', rd, sd, hs, rfl, h, ha, h1, h2⟩
 
 example : ∃ c, exportClosure "all" exEnv = some c ∧
     callClosure 16 { env := [] } c [.int 3, .fn 4] {} exHeap = .ok ((.undef, {}), stG exHeap (.int 3) (.fn 4)) :=
